@@ -267,6 +267,83 @@ Proof.
     eapply step_no_dangling; [exact Es|]. eapply IH; eassumption.
 Qed.
 
+(* ---------- single-op faults ---------- *)
+Definition oks (ftr : list fop) : list op := map fst (filter (fun x => snd x) ftr).
+
+Lemma frun_oks ftr : forall R, frun R ftr = run R (oks ftr).
+Proof.
+  induction ftr as [|[o b] r IH]; intros R; [reflexivity|]. unfold frun, oks in *. cbn [fold_left filter snd fst].
+  destruct b; cbn [map fold_left run]; apply IH.
+Qed.
+
+Lemma run_okf_run_ok pl ftr : forall ph sf R, run_okf pl ph sf R ftr = true -> run_ok pl ph R (oks ftr) = true.
+Proof.
+  induction ftr as [|[o b] r IH]; intros ph sf R H; [reflexivity|]. unfold oks in *. cbn [run_okf snd fst] in H. cbn [filter snd].
+  destruct b; cbn [map fst run_ok].
+  - destruct (step_ok pl ph R o) as [ph'|]; [|discriminate].
+    destruct (sf && match ph' with PhC => true | _ => false end); [discriminate|]. eapply IH, H.
+  - eapply IH, H.
+Qed.
+
+Lemma oks_firstn ftr : forall n, exists m, oks (firstn n ftr) = firstn m (oks ftr).
+Proof.
+  induction ftr as [|[o b] r IH]; intros n.
+  - exists 0%nat. destruct n; reflexivity.
+  - destruct n; [exists 0%nat; reflexivity|]. destruct (IH n) as [m Hm]. unfold oks in *. cbn [firstn filter snd].
+    destruct b; cbn [map fst].
+    + exists (S m). cbn [firstn]. rewrite Hm. reflexivity.
+    + exists m. exact Hm.
+Qed.
+
+(* For every attempted-op sequence with arbitrary failed ops (in particular: exactly one op fails, at any
+   position) accepted by run_okf, whatever prune returns, every used blob is loadable after every step. *)
+Theorem prune_fault_safe R0 used pl ftr :
+  Consistent R0 used -> valid_planb R0 used pl = true -> run_okf pl PhA false R0 ftr = true ->
+  forall n, Consistent (frun R0 (firstn n ftr)) used.
+Proof.
+  intros Hc Hv Hr n. rewrite frun_oks. destruct (oks_firstn ftr n) as [m ->].
+  apply prune_prefix_safe with (pl := pl); [exact Hc | exact Hv | eapply run_okf_run_ok, Hr].
+Qed.
+
+(* the structural rule itself: once a Save has failed, an accepted trace contains no successful removal
+   of an obsolete index, and no successful removal of a pack outside phase A *)
+Lemma no_index_removal_after_failed_save pl ph R i r : run_okf pl ph true R ((RmI i, true) :: r) = false.
+Proof.
+  cbn [run_okf step_ok snd fst]. destruct (enter_c pl ph R && memN i (obs pl)); reflexivity.
+Qed.
+
+Lemma no_old_pack_removal_after_failed_save pl R p r : run_okf pl PhB true R ((RmP p, true) :: r) = false.
+Proof.
+  cbn [run_okf step_ok snd fst]. destruct (enter_c pl PhB R && memN p (rm pl) && negb (idx_names R p)); reflexivity.
+Qed.
+
+(* the seeded defect in the abstract: the rewritten index (SaveI 3) fails, the obsolete indexes and the
+   old packs are removed all the same: rejected; stopping after the failed Save is accepted *)
+Example c09_fault_nonvacuous :
+  let R0 := mkR [(1, [1; 2]); (2, [3])] [(1, [(1, 1); (1, 2); (2, 3)])] in
+  let pl := mkPl [] [1; 2] [1; 2] [1] [1; 2] in
+  run_okf pl PhA false R0 [(SaveP 3 [1], true); (SaveI 2 [(3, 1)], true); (SaveI 3 [(3, 1)], false);
+                           (RmI 1, true); (RmI 2, true); (RmP 1, true); (RmP 2, true)] = false /\
+  run_okf pl PhA false R0 [(SaveP 3 [1], true); (SaveI 2 [(3, 1)], true); (SaveI 3 [(3, 1)], false)] = true /\
+  must_report [(SaveP 3 [1], true); (SaveI 3 [(3, 1)], false)] = true /\
+  (* a failed pack removal is tolerated *)
+  run_okf pl PhA false R0 [(SaveP 3 [1], true); (SaveI 3 [(3, 1)], true); (RmI 1, true); (RmP 1, false); (RmP 2, true)] = true.
+Proof. vm_compute. repeat split. Qed.
+
+Lemma check_fault_sound R0 used pl ftr rep c1 c2 c3 :
+  check_case (CFault R0 used pl false ftr rep c1 c2 c3) = 0%nat ->
+  (forall n, Consistent (frun R0 (firstn n ftr)) used) /\
+  (must_report ftr = true -> rep = true) /\ c1 = true /\ c2 = true /\ c3 = true.
+Proof.
+  cbn [check_case]. intros H.
+  destruct (consistentb R0 used) eqn:E1; cbn [negb] in H; [|discriminate].
+  destruct (valid_planb R0 used pl) eqn:E2; cbn [negb] in H; [|discriminate].
+  destruct (run_okf pl PhA false R0 ftr) eqn:E3; cbn [negb] in H; [|discriminate].
+  destruct (consistentb (frun R0 ftr) used); cbn [negb] in H; [|discriminate].
+  split; [intros n; apply prune_fault_safe with (pl := pl); [apply consistentb_iff, E1 | exact E2 | exact E3]|].
+  destruct (must_report ftr), rep, c1, c2, c3; cbn in H; try discriminate; repeat split; intros; congruence.
+Qed.
+
 (* ---------- oracle ---------- *)
 Lemma check_trace_sound R0 used pl tr :
   check_case (CTrace R0 used pl false tr) = 0%nat ->
